@@ -310,7 +310,20 @@ fn forge(rng: &mut Rng, vh: &packed::VerifiableHeader) -> (packed::VerifiableHea
 pub(crate) fn mutate_response(rng: &mut Rng, base: &Resp, chain: &SynChain, fork: &SynChain) -> (Resp, &'static str) {
     let mut r = Resp { last: base.last.clone(), headers: base.headers.clone(), proof: base.proof.clone() };
     let nh = r.headers.len() as u64;
-    let what: &'static str = match rng.below(16) {
+    let what: &'static str = match rng.below(18) {
+        16 | 17 => {
+            // the requested last header, but with the chain root of the OTHER branch, and that branch's headers with a proof
+            // that is consistent with this root: only the last header's own commitment to its chain root tells them apart
+            let last_n: u64 = r.last.header().raw().number().unpack();
+            let numbers: Vec<u64> = r.headers.iter().map(|h| h.header().raw().number().unpack()).collect();
+            if last_n < fork.len() && numbers.iter().all(|n| *n < last_n) && numbers.iter().any(|n| fork.headers[*n as usize].hash() != chain.headers[*n as usize].hash()) {
+                let other_root = fork.packed_vheader(last_n).parent_chain_root();
+                r.last = r.last.clone().as_builder().parent_chain_root(other_root).build();
+                r.headers = numbers.iter().map(|n| fork.packed_vheader(*n)).collect();
+                r.proof = fork.proof(last_n, &numbers).into_iter().collect();
+                "other-branch-under-uncommitted-chain-root"
+            } else { r.headers.clear(); "no-headers" }
+        }
         0 if nh > 0 => { let k = rng.below(nh) as usize; r.headers.remove(k); "drop-header" }
         1 if nh > 0 => { let k = rng.below(nh) as usize; let h = r.headers[k].clone(); r.headers.insert(k, h); "duplicate-header" }
         2 if nh > 1 => { let k = rng.below(nh - 1) as usize; r.headers.swap(k, k + 1); "swap-headers" }
